@@ -31,6 +31,8 @@ mod completion;
 mod reedline;
 #[cfg(feature = "reedline")]
 pub use reedline::ReedlineInputBackend;
+#[cfg(all(feature = "reedline", feature = "verif-hooks"))]
+pub use reedline::verif_reedline_history;
 
 // Basic shell
 #[cfg(feature = "basic")]
